@@ -662,6 +662,16 @@ func (w *World) onEmit(event string, objs ...any) {
 		if a := w.ctl.ActorOfGoroutine(); a != "" {
 			kv["c"] = strings.TrimPrefix(a, "c:")
 		}
+	case "rollout_split", "rollout_split_refused":
+		sv := objs[0].(*server.Service)
+		kv["svc"] = server.VerifServiceName(sv)
+		kv["ver"] = w.id("svcver", sv)
+		if len(objs) > 1 {
+			kv["on"] = objs[1]
+		}
+		if a := w.ctl.ActorOfGoroutine(); a != "" {
+			kv["c"] = strings.TrimPrefix(a, "c:")
+		}
 	case "pause_state":
 		kv["pc"] = w.id("pc", objs[0])
 		kv["state"] = objs[1]
